@@ -54,6 +54,16 @@ func checkRead(c *readCase) (msg string, delivered bool) {
 	r := &iofault.FailAt{Data: c.Data, At: c.At, WithData: c.WithData, Once: c.Once}
 	_, err := tg.Run(r)
 	if r.Delivered && err == nil {
+		// A reader may look ahead (buffering) beyond what the result needs.
+		// The fault only has to surface if the bytes before it do not already
+		// determine the complete result: if the input cut off at the fault
+		// offset reads exactly like the whole input, ignoring what follows is
+		// legitimate.
+		full, ferr := tg.Run(bytes.NewReader(c.Data))
+		cut, cerr := tg.Run(bytes.NewReader(c.Data[:c.At]))
+		if ferr == nil && cerr == nil && full == cut {
+			return "", false
+		}
 		return fmt.Sprintf("%s: a read fault at offset %d of %d (data with error: %v) was delivered to the library but the call returned no error", c.Target, c.At, len(c.Data), c.WithData), true
 	}
 	return "", r.Delivered
@@ -81,7 +91,7 @@ func genReadInput(t *rapid.T) (target string, data []byte, label string, truncat
 func TestP1ReadFaults(t *testing.T) {
 	rec := ev.New("C13", "readfaults")
 	defer rec.Finish(t)
-	rec.Rule("for each generated input (programs incl. eexec sections, single-CMap files, Type 1 fonts in the four containers from both writers, AFM files, PFB streams; up to 8 KB): a read fault with a distinct sentinel error at EVERY byte offset 0..len, with the error returned alone or together with the last bytes before the offset, persistent (every later read fails too; both forms) or transient (error returned alone once, reading would continue normally afterwards); for Type 1 and CMap files additionally a truncation at EVERY offset. Oracle: if the fault was delivered to the library (the wrapper records it) the call must return a non-nil error and must not panic; a truncated file must give an error or the result of the complete file. Non-trivial: fault delivered and strictly inside the data; distinct by (input, offset, variant).")
+	rec.Rule("for each generated input (programs incl. eexec sections, single-CMap files, Type 1 fonts in the four containers from both writers, AFM files, PFB streams; up to 8 KB): a read fault with a distinct sentinel error at EVERY byte offset 0..len, with the error returned alone or together with the last bytes before the offset, persistent (every later read fails too; both forms) or transient (error returned alone once, reading would continue normally afterwards); for Type 1 and CMap files additionally a truncation at EVERY offset. Oracle: if the fault was delivered to the library (the wrapper records it) and the bytes before it do not already determine the complete result (the input cut off at the fault offset reads differently from the whole input - otherwise a buffering reader may legitimately never look at the fault) the call must return a non-nil error and must not panic; a truncated file must give an error or the result of the complete file. Non-trivial: fault delivered and strictly inside the data; distinct by (input, offset, variant).")
 	ev.SetupRapid(60, 1600)
 	rapid.Check(t, func(t *rapid.T) {
 		target, data, label, trunc := genReadInput(t)
